@@ -173,28 +173,32 @@ func AdditiveTwins(a []byte, max int) [][]byte {
 // FNV32Pair returns two different strings prefix||tail1, prefix||tail2 (8-byte tails) with the same FNV-1a (variant 0) or
 // FNV-1 (variant 1) 32-bit hash. Deterministic: the tails are enumerated from salt.
 func FNV32Pair(prefix []byte, salt uint64, variant int) ([]byte, []byte) {
-	seen := map[uint32]uint64{}
-	tail := make([]byte, 8)
+	const prime, offset = 16777619, 2166136261
+	step := func(h uint32, c byte) uint32 {
+		if variant == 1 {
+			return (h * prime) ^ uint32(c)
+		}
+		return (h ^ uint32(c)) * prime
+	}
+	state := uint32(offset)
+	for _, c := range prefix {
+		state = step(state, c)
+	}
+	seen := make(map[uint32]uint64, 1<<17)
 	for k := uint64(0); k < 1<<22; k++ {
 		v := mix64tw(salt + k)
-		for i := range tail {
-			tail[i] = byte(v >> (8 * uint(i)))
+		h := state
+		for i := 0; i < 8; i++ {
+			h = step(h, byte(v>>(8*uint(i))))
 		}
-		h := fnv.New32a()
-		if variant == 1 {
-			h = fnv.New32()
-		}
-		h.Write(prefix)
-		h.Write(tail)
-		s := h.Sum32()
-		if prev, ok := seen[s]; ok && prev != v {
+		if prev, ok := seen[h]; ok && prev != v {
 			a, b := append([]byte{}, prefix...), append([]byte{}, prefix...)
 			for i := 0; i < 8; i++ {
 				a, b = append(a, byte(prev>>(8*uint(i)))), append(b, byte(v>>(8*uint(i))))
 			}
 			return a, b
 		}
-		seen[s] = v
+		seen[h] = v
 	}
 	return nil, nil
 }
